@@ -86,6 +86,36 @@ def copy_headers(srcdirs, hdr, log, r2_types):
     return n_r2
 
 
+TYPEDEF_RX = re.compile(r'typedef\s+((?:std::)?(?:map|vector|set|pair)\s*<[^;]+>)\s+(\w+)\s*;')
+
+
+def typedef_table(hdr):
+    tab = {}
+    for f in sorted(glob.glob(hdr + "/*.h")):
+        for m in TYPEDEF_RX.finditer(open(f, errors="replace").read()):
+            tab.setdefault(m.group(2), set()).add(re.sub(r'\s+', ' ', m.group(1)))
+    return tab
+
+
+def rule_r7(e, tab):
+    """R7: CBMC cannot use a typedef of a template instantiation as a scope (`TypeMap::iterator`):
+    expand the typedef name textually to its target, taken from the class headers."""
+    n = 0
+    for name in sorted(tab):
+        rx = re.compile(r'(?<![\w:])' + name + r'\s*::')
+        if not rx.search(e.text):
+            continue
+        if len(tab[name]) != 1:
+            raise X.ExtractionError("R7: typedef %s is ambiguous (%s)" % (name, sorted(tab[name])))
+        tgt = list(tab[name])[0]
+        if not tgt.startswith("std::"):
+            tgt = "std::" + tgt
+        e.text, k = rx.subn(tgt + "::", e.text)
+        n += k
+    if n:
+        e.rewrites.append("R7 typedef-as-scope expanded x%d" % n)
+
+
 def apply_canary(text, canary, path_or_name):
     new, k = re.subn(canary["from"], canary["to"], text, count=canary.get("count", 1))
     if k == 0:
@@ -121,6 +151,16 @@ def build_tu(vu, work, canary=None):
             for name in pos:
                 shutil.copy(os.path.join(vdir, "shadow", name), os.path.join(hdr, name))
                 log["rewrites"].append("header %s shadowed by VU stub shadow/%s" % (name, name))
+        elif kind == "hdrinsert":
+            # add a declaration to a copied header (needed for R1-renamed bodies): must fire exactly once
+            name = pos[0]
+            hp = os.path.join(hdr, name)
+            ht = open(hp).read()
+            if ht.count(kv["after"]) != 1:
+                raise Undecided("extraction", "hdrinsert anchor %r found %d times in %s" % (kv["after"], ht.count(kv["after"]), name))
+            ht = ht.replace(kv["after"], kv["after"] + " " + kv["text"])
+            open(hp, "w").write(ht)
+            log["rewrites"].append("header %s: declaration added after %r: %s" % (name, kv["after"], kv["text"]))
         elif kind == "truncate":
             # keep a header's text up to (not including) an anchor: //@truncate file.I anchor="..."
             name = pos[0]
@@ -170,6 +210,8 @@ def build_tu(vu, work, canary=None):
                     if k == 0:
                         raise X.ExtractionError("R3 did not fire on %s" % e.qualname)
                     e.rewrites.append("R3 range-for -> index loop x%d" % k)
+                if kind in ("extract", "whole", "block"):
+                    rule_r7(e, typedef_table(hdr))
                 if "r0" in pos or kind == "whole":
                     new, k = re.subn(r'(?m)^using (std::\w+|namespace std);\s*$', '', e.text)
                     e.text = new
@@ -333,7 +375,7 @@ def run_entry(vu, work, entry, tier, cover=False):
     if not cover:
         cmd += ["--trace"]
     cmd += ["--json-ui"]
-    to = entry.get("timeout", {"quick": 600, "thorough": 1800}[tier])
+    to = int(os.environ.get("VERIF_TIMEOUT", entry.get("timeout", {"quick": 600, "thorough": 1800}[tier])))
     rc, so, se, dt = run(cmd, cwd=work, timeout=to)
     res = {"entry": name, "cmd": " ".join(cmd), "seconds": round(dt + t_inst, 2), "backend": backend,
            "bounds": bounds, "mode": entry.get("mode", "B" if unwind else "P")}
@@ -604,10 +646,19 @@ def main():
                     for x in detail:
                         if not any(obligation_name(x) == obligation_name(u[2]) for u in unmatched):
                             final.append((vu, er, x))
+        # one VIOLATION line (and one replay file) per (vu, entry); the file lists every refuted obligation
+        fgroups = {}
         for vu, er, x in final:
+            fgroups.setdefault((vu["name"], er["entry"]), []).append((vu, er, x))
+        for (vname, ename), items in sorted(fgroups.items()):
+            vu, er = items[0][0], items[0][1]
+            # prefer a property-carrying (named) obligation as the headline
+            items.sort(key=lambda it: (0 if re.match(r"^C\d\d", obligation_name(it[2])) else 1))
+            x = items[0][2]
             oname = obligation_name(x)
             vin = vin_from_trace(x.get("trace"))
-            rp = {"property": pid, "vu": vu["name"], "entry": er["entry"], "obligation": oname,
+            rp = {"property": pid, "vu": vname, "entry": ename, "obligation": oname,
+                  "all_refuted_obligations": [obligation_name(it[2]) for it in items],
                   "cbmc_property": x.get("property"), "source": x.get("sourceLocation"),
                   "inputs": vin, "cbmc_cmd": er["cmd"], "mode": er["mode"],
                   "functions": [f["function"] for f in (results[vus.index(vu)]["log"] or {}).get("functions", [])],
@@ -616,15 +667,16 @@ def main():
             mod = load_replay(vu)
             if mod is not None:
                 try:
-                    native = mod.replay({"entry": er["entry"], "obligation": oname, "vin": vin,
+                    native = mod.replay({"entry": ename, "obligation": oname, "vin": vin,
                                          "repo": REPO, "verif": VERIF})
                 except Exception as ex:  # replay machinery failure is not a verdict
                     native = {"reproduced": False, "error": repr(ex)}
             rp["native_replay"] = native
-            safe = re.sub(r'[^A-Za-z0-9_.-]+', '_', "%s-%s-%s-%s" % (pid, vu["name"], er["entry"], oname))[:150]
+            safe = re.sub(r'[^A-Za-z0-9_.-]+', '_', "%s-%s-%s" % (pid, vname, ename))[:150]
             path = os.path.join(VERIF, "replays", safe + ".json")
             json.dump(rp, open(path, "w"), indent=1, default=str)
             real_violations += 1
+            print("  refuted: %s %s: %s%s" % (vname, ename, oname, (" (+%d more)" % (len(items) - 1)) if len(items) > 1 else ""))
             if native and native.get("reproduced"):
                 out_lines.append("VIOLATION property=%s replay=%s" % (pid, path))
             else:
